@@ -25,6 +25,7 @@ class Program:
 
     def __init__(self, funcs, layout, models, crate_prefix=""):
         self.overloads = funcs.pop("#overloads", {})
+        self.allocs = funcs.pop("#allocs", {})
         self.funcs = funcs
         self.layout = layout
         self.models = models          # list of (compiled regex, fn)
@@ -35,7 +36,7 @@ class Program:
             if "{closure#" in name and f.params:
                 m = re.search(r"\{closure@[^}]*\}", f.params[0][1])
                 if m and name.rsplit("::", 1)[-1].startswith("{closure#"):
-                    self.closure_index.setdefault(m.group(0), name)
+                    self.closure_index.setdefault(m.group(0), []).append(name)
         # method table: (self_ty_last, trait_last|None, method) -> fn name
         self.methods = {}
         for name in funcs:
@@ -354,7 +355,7 @@ class Interp:
         if isinstance(v, list):
             return [self.copy_val(x) for x in v]
         if isinstance(v, Closure):
-            return Closure(v.key, [self.copy_val(x) for x in v.fields])
+            return Closure(v.key, [self.copy_val(x) for x in v.fields], v.body)
         return v
 
     def const(self, s):
@@ -377,7 +378,7 @@ class Interp:
             t = s[len("ZeroSized: "):]
             if t.startswith("{closure@"):
                 m = re.match(r"\{closure@[^}]*\}", t)
-                return Closure(m.group(0), [])
+                return Closure(m.group(0), [], self.closure_body(m.group(0)))
             return self.zero_sized(t)
         ng = strip_generics(s)
         if ng.endswith("::None") and "Option" in ng:
@@ -392,6 +393,14 @@ class Interp:
         f = self.prog.funcs.get(s) or self.prog.funcs.get(ng)
         if f is not None and f.is_const:
             return self.call_static(f.name, [])
+        am = re.match(r"^\{(alloc\d+): &", s)
+        if am and am.group(1) in self.prog.allocs:
+            # reference to a static: its initialiser is evaluated once per path
+            name = self.prog.allocs[am.group(1)]
+            cell = self.env.setdefault("static-cells", {})
+            if name not in cell:
+                cell[name] = [self.call_static(name, [])]
+            return Ref(cell[name], 0)
         if re.match(r"^\{(alloc|transmute)", s):
             return Opaque("const-alloc", s)
         # unit-like enum variant or unit struct constant, associated const, fn item
@@ -426,6 +435,8 @@ class Interp:
         if k == "discr":
             v = self.place_ref(fr, rv[1]).get()
             if isinstance(v, EnumV):
+                if v.ty == "Ordering" or v.ty.endswith("::Ordering"):
+                    return v.variant - 1      # Less = -1, Equal = 0, Greater = 1
                 return v.variant
             d = getattr(v, "discriminant", None)
             if d is not None:
@@ -442,7 +453,7 @@ class Interp:
         if k == "array":
             return [self.operand(fr, o) for o in rv[1]]
         if k == "closure":
-            return Closure(rv[1], [self.operand(fr, o) for o in rv[2]])
+            return Closure(rv[1], [self.operand(fr, o) for o in rv[2]], self.closure_body(rv[1]))
         if k == "cast":
             v = self.operand(fr, rv[1])
             return self.cast(v, rv[2], rv[3], self.static_ty(f, rv[1]))
@@ -658,30 +669,22 @@ class Interp:
         if base in funcs:
             return ("mir", base)
         if "::promoted[" in callee:
-            # `path::Type::method::promoted[n]` is defined under `path::<impl at ..>::method::promoted[n]`
-            parts = base.split("::")
-            tail = "::".join(parts[-2:])
-            cands = [n for n in funcs if n.endswith("::" + tail) and "promoted[" in n]
-            tl = parts[-3] if len(parts) >= 3 else None
-            good = []
-            for c in cands:
-                m = re.search(r"<impl at ([^>]*?):(\d+):(\d+): ", c)
-                if m:
-                    imp = prog.layout.impls.get((m.group(1), int(m.group(2)), int(m.group(3))))
-                    if imp and imp["self_ty"] == tl:
-                        good.append(c)
-            if len(good) == 1:
-                return ("mir", good[0])
-            # closures inside impl methods: match by the full suffix after the type
-            if len(cands) == 1:
-                return ("mir", cands[0])
-            if good:
-                # several methods' promoteds of the same type share a tail only if nested deeper
-                for c in good:
-                    if c.endswith("::" + "::".join(parts[-3:])) or True:
-                        pass
-                return ("mir", good[0])
+            # `path::Type::method[::{closure#k}]::promoted[n]`: resolve the enclosing function, then append
+            cut = callee.rindex("::promoted[")
+            owner = self._resolve(callee[:cut])
+            if owner is not None and owner[0] in ("mir", "mirderef"):
+                cand = owner[1] + callee[cut:]
+                if cand in funcs:
+                    return ("mir", cand)
             return None
+        m2 = re.match(r"^(<.* as .*?>::[A-Za-z_0-9]+)::(.+)$", base)
+        if m2 and not m2.group(2).startswith("<"):
+            # items nested in a trait-impl method: `<T as Trait>::method::nested_fn`, `...::{closure#0}`
+            owner = self._resolve(m2.group(1))
+            if owner is not None and owner[0] in ("mir", "mirderef"):
+                cand = owner[1] + "::" + m2.group(2)
+                if cand in funcs:
+                    return ("mir", cand)
         m = re.match(r"^<(.*) as (.*?)>::([A-Za-z_0-9]+)$", base)
         if m:
             ty, tr, meth = m.group(1).strip(), m.group(2), m.group(3)
@@ -778,8 +781,21 @@ class Interp:
             return cv(self, args)
         raise Unsupported("call of non-function value %r" % (fv,))
 
+    def closure_body(self, key):
+        """body of a closure created in the function on top of the call stack (spans inside macros are not unique)"""
+        cands = self.prog.closure_index.get(key)
+        if not cands:
+            return None
+        if len(cands) == 1:
+            return cands[0]
+        cur = self.stack[-1] if self.stack else ""
+        best = [c for c in cands if c.startswith(cur + "::{closure#")]
+        if len(best) == 1:
+            return best[0]
+        return best[0] if best else cands[0]
+
     def call_closure(self, clo, args):
-        name = self.prog.closure_index.get(clo.key)
+        name = clo.body or self.closure_body(clo.key)
         if name is None:
             raise Unsupported("closure body not found: " + clo.key)
         f = self.prog.funcs[name]
@@ -879,7 +895,7 @@ class Interp:
             v = int(v)
         if not is_sym(v):
             for val, tb in tgts:
-                if val == v:
+                if val == v or (v < 0 and val in (v + 256, v + (1 << 64), v + (1 << 128))):
                     return tb
             if other is None:
                 raise Unsupported("switch without matching arm for %r" % (v,))
